@@ -1,6 +1,7 @@
 import Evenio.Driver.Parse
 import Evenio.Model.Gates
 import Evenio.Model.InvPlus
+import Evenio.Driver.Probe
 /-! Driver: reads histories on stdin (`=== id` starts a fresh world; `>`-lines and `#`-lines are ignored; every
     other line is one operation), prints each operation followed by the model's observation lines. -/
 open Evenio
@@ -32,6 +33,7 @@ partial def loop (h : IO.FS.Stream) (w : World) (debug snap : Bool) (dead : Bool
     | some op =>
       let (w', lines) := step w op snap
       for l in lines do IO.println ("> " ++ l)
+      if !(line == "drop") then IO.println s!"> pr {w'.probeCount}"
       if inv && !(line == "drop") then
         let r := w'.invPlusReport
         IO.println (if r.isEmpty then "> inv ok" else "> inv FAIL:" ++ ",".intercalate r)
